@@ -49,6 +49,15 @@ pub fn run(c: &Case, rep: &mut Report, prop: &str) {
         if added.len() != 4 {
             rep.violation(c, "C04/edit/added-imports-missing", &format!("4 imports were added through the API, the output has {} of them", added.len()), &[("out.wasm", out)]);
         }
+        // ... and nothing else: one function, global, table and memory more than the input, at most one type more
+        for (kind, a, b) in [("functions", din.funcs.len(), dout.funcs.len()), ("globals", din.globals.len(), dout.globals.len()), ("tables", din.tables.len(), dout.tables.len()), ("memories", din.memories.len(), dout.memories.len())] {
+            if b != a + 1 {
+                rep.violation(c, &format!("C04/edit/{}-count", kind), &format!("one imported entity of each kind was added through the API: the input has {} {}, the output {}", a, kind, b), &[("out.wasm", out)]);
+            }
+        }
+        if dout.types.len() > din.types.len() + 1 || dout.elems.len() != din.elems.len() || dout.datas.len() != din.datas.len() || dout.exports.len() != din.exports.len() {
+            rep.violation(c, "C04/edit/other-entities-count", &format!("types {}->{}, element segments {}->{}, data segments {}->{}, exports {}->{}", din.types.len(), dout.types.len(), din.elems.len(), dout.elems.len(), din.datas.len(), dout.datas.len(), din.exports.len(), dout.exports.len()), &[("out.wasm", out)]);
+        }
         rep.count("edited-outputs-compared", 1);
     }
     for p in r.problems.iter().filter(|p| p.cat == cat).filter(|p| !(edited && (p.sig.ends_with("-added") || p.sig == "import-name-or-order-differs"))) {
